@@ -565,6 +565,7 @@ pub mod unit_nuts {
         pub fn step(&mut self)
             requires old(self).m + old(self).t_0 < usize::MAX
             ensures nuts_step_post::<B, GTarget>(*old(self), *final(self)),          // [C03.transition_is_algorithm_6]
+                exists |alpha: Fl, n_alpha: int| #[trigger] da_post::<B, GTarget>(*old(self), *final(self), alpha, n_alpha),     // [C04.dual_averaging_update_in_warmup_frozen_afterwards]
                 final(self).m == old(self).m + 1 && final(self).t_0 == old(self).t_0 && v1(final(self).position).len() == v1(old(self).position).len(),
         //@body id=nuts_step file=src/nuts.rs impl_self=NUTSChain name=step props=C03,C04,C14,C07
         //@sig fn step (& mut self)
